@@ -101,6 +101,16 @@ CHECKS = {
         note='Trusted: mc/ref/datatypes.py (950 lines, no xmlschema/elementpath code). Open cases (1.0 anyURI, years beyond 4 digits, durations beyond the minimum '
              'range, type-level QName encode) are counted, not judged. Known findings: timezone partial order in bounds/enumerations, 24:00:00 at a year end, list '
              'enumeration decode, True == 1 in union enumeration, residual Unicode stripping inside elementpath.'),
+    'C09': dict(
+        technique='exhaustive enumeration of arrangements (all permutations, all 2-/3-way include partitions, location spellings, import orders, stored forms) with a metamorphic oracle',
+        text='Model checking by complete enumeration of rewrites: 12 generated schemas (4-6 globals wired with every kind of forward reference) and the 125 '
+             'buildable corpus schemas; ALL permutations of the globals (n <= 5; n = 6: transpositions + reversal + seed slice in quick, all 720 in thorough), '
+             'ALL 2^n two-way and 3^n three-way splits into include files, 8 location spellings in every pair plus diamond includes, import-order permutations, '
+             'rebuild, pickle, copy of the maps. Each arrangement must give the same global components (names and a public-API summary of each) and the same '
+             'verdict, error multiset and decoded data on generated probe instances as the original arrangement; the order of _build_global calls is recorded as the state.',
+        design_ref='DESIGN.md section 2, C09',
+        note='Trusted: the probe generator and component summary of mc/checks/c09.py. A bare schema.copy() is explored, not judged. Known finding: XSD 1.1 circular '
+             'attribute groups get order-dependent attribute sets (44 arrangements of one schema).'),
 }
 
 PENDING_REASON = 'check not built yet in this session; the design (DESIGN.md section 2) applies bounded exhaustive exploration to it'
